@@ -49,7 +49,12 @@ type c06Case struct {
 	Kind     string      `json:"kind"`
 	Universe string      `json:"universe"` // plain | collide
 	Pre      []gen.AtomV `json:"pre,omitempty"`
-	Ops      []c06Op     `json:"ops"`
+	// Timed (kind temporal-adapter-teeing only): atoms that the layered temporal store holds with bounded validity
+	// intervals, one in the base layer and an overlapping one in the output layer (what evaluating temporal rules over
+	// loaded temporal facts leaves behind). To the all-time adapter each of them is one present atom. The history
+	// never adds them (the result of adding "for all time" to an atom with bounded validity is not the property's subject).
+	Timed []gen.AtomV `json:"timed,omitempty"`
+	Ops   []c06Op     `json:"ops"`
 }
 
 type c06 struct{}
@@ -71,7 +76,7 @@ func (c06) Cases(tier string) int {
 func (c06) Describe() core.Info {
 	return core.Info{
 		Level: "exploration",
-		Rule: "random histories (15-120 ops) of add/remove/contains/query/list/count/merge over a ~40-atom universe (same symbol with arities 0,1,2 and 5,6; all constant kinds; patterns with constants in non-first columns) on 12 store kinds (incl. the temporal adapter over a plain and over a layered temporal store) x 2 universes (plain: pairwise distinct Atom.Hash; collide: contains hash-equal distinct atoms); oracle = Go map keyed by canonical encoding, layered for merged/teeing; multi-indexed stores additionally walked by the verif index-agreement hook at quiescent points; on the concurrent wrappers the history is followed by a contended phase: 4 goroutines add and remove the same <= 4 atoms at once and, at quiescence, (Adds that returned true) - (Removes that returned true) must equal the change in membership of each atom (exactly-once conservation, no search needed). Non-trivial: history has a remove-then-query or a merge and reaches >= 4 distinct model states; distinct by hash of (kind, op sequence).",
+		Rule: "random histories (15-120 ops) of add/remove/contains/query/list/count/merge over a ~40-atom universe (same symbol with arities 0,1,2 and 5,6; all constant kinds; patterns with constants in non-first columns) on 12 store kinds (incl. the temporal adapter over a plain and over a layered temporal store, the latter in half of the plain-universe histories also holding 1-3 atoms with bounded, overlapping validity intervals in both layers, which the all-time adapter has to present as one atom each) x 2 universes (plain: pairwise distinct Atom.Hash; collide: contains hash-equal distinct atoms); oracle = Go map keyed by canonical encoding, layered for merged/teeing; multi-indexed stores additionally walked by the verif index-agreement hook at quiescent points; on the concurrent wrappers the history is followed by a contended phase: 4 goroutines add and remove the same <= 4 atoms at once and, at quiescence, (Adds that returned true) - (Removes that returned true) must equal the change in membership of each atom (exactly-once conservation, no search needed). Non-trivial: history has a remove-then-query or a merge and reaches >= 4 distinct model states; distinct by hash of (kind, op sequence).",
 		Assumptions: []string{"canon encoding is injective (unit-tested)", "ListPredicates may list stale empty predicates", "EstimateFactCount of merged/teeing may over-estimate (documented)"},
 	}
 }
@@ -148,6 +153,24 @@ func (c06) Gen(r *rand.Rand, tier string, i int) any {
 			c.Pre = append(c.Pre, pick())
 		}
 	}
+	timedKeys := map[string]bool{}
+	if c.Kind == "temporal-adapter-teeing" && c.Universe == "plain" && r.Intn(2) == 0 {
+		n := 1 + r.Intn(3)
+		for j := 0; j < n; j++ {
+			a := pick()
+			k := canon.Atom(a.Atom())
+			inPre := false
+			for _, p := range c.Pre {
+				if canon.Atom(p.Atom()) == k {
+					inPre = true
+				}
+			}
+			if !timedKeys[k] && !inPre {
+				timedKeys[k] = true
+				c.Timed = append(c.Timed, a)
+			}
+		}
+	}
 	teeOverlap := r.Intn(4) == 0
 	nOps := 15 + r.Intn(106)
 	for j := 0; j < nOps; j++ {
@@ -217,6 +240,18 @@ func (c06) Gen(r *rand.Rand, tier string, i int) any {
 				op.OtherKind = "multiarray" // the source must itself hold the atoms faithfully
 			}
 		}
+		if op.Op == "add" && timedKeys[canon.Atom(op.A.Atom())] {
+			op.Op = "contains"
+		}
+		if op.Op == "merge" && len(timedKeys) > 0 {
+			var o2 []gen.AtomV
+			for _, a := range op.Other {
+				if !timedKeys[canon.Atom(a.Atom())] {
+					o2 = append(o2, a)
+				}
+			}
+			op.Other = o2
+		}
 		c.Ops = append(c.Ops, op)
 	}
 	return c
@@ -235,7 +270,7 @@ type c06Store struct {
 	indexed factstore.ReadOnlyFactStore // store to hand to the index walker (or nil)
 }
 
-func c06Build(kind string, pre []gen.AtomV) c06Store {
+func c06Build(kind string, pre []gen.AtomV, timed ...gen.AtomV) c06Store {
 	switch {
 	case kind == "merged":
 		ro := factstore.NewMultiIndexedArrayInMemoryStore()
@@ -267,7 +302,14 @@ func c06Build(kind string, pre []gen.AtomV) c06Store {
 		for _, a := range pre {
 			base.AddEternal(a.Atom())
 		}
-		return c06Store{fs: factstore.NewTemporalFactStoreAdapter(factstore.NewTeeingTemporalStore(base))}
+		for _, a := range timed {
+			base.Add(a.Atom(), ast.TimeInterval(ast.Date(2019, 1, 1), ast.Date(2021, 12, 31)))
+		}
+		layered := factstore.NewTeeingTemporalStore(base)
+		for _, a := range timed {
+			layered.Add(a.Atom(), ast.TimeInterval(ast.Date(2021, 1, 1), ast.Date(2024, 12, 31)))
+		}
+		return c06Store{fs: factstore.NewTemporalFactStoreAdapter(layered)}
 	default:
 		b := newBase(kind)
 		return c06Store{fs: b, rm: b, exact: true, indexed: b}
@@ -282,9 +324,12 @@ type c06Fail struct {
 
 // c06Exec runs a history and returns the first disagreement with the set model.
 func c06Exec(c c06Case, res *core.Result) *c06Fail {
-	st := c06Build(c.Kind, c.Pre)
+	st := c06Build(c.Kind, c.Pre, c.Timed...)
 	R := canon.Set{}
 	for _, a := range c.Pre {
+		R.Add(a.Atom())
+	}
+	for _, a := range c.Timed {
 		R.Add(a.Atom())
 	}
 	W := canon.Set{}
@@ -634,7 +679,7 @@ func c06DropCollisions(c c06Case) c06Case {
 		at := a.Atom()
 		return at.Predicate.Symbol + "/" + fmt.Sprint(at.Predicate.Arity) + canon.Atom(at)
 	}
-	out := c06Case{Kind: c.Kind, Universe: c.Universe}
+	out := c06Case{Kind: c.Kind, Universe: c.Universe, Timed: c.Timed}
 	for _, a := range c.Pre {
 		if !drop[key(a)] {
 			out.Pre = append(out.Pre, a)
